@@ -682,3 +682,359 @@ Proof. eexists. split; [vm_compute; reflexivity|]. split; reflexivity. Qed.
 Example ex_malformed_body : is_deletion_ongoing (JObj [("metadata", JNull)]) = ErrType /\
                             is_deletion_blocked ex_fin (JObj [("metadata", JObj [("finalizers", JNull)])]) = ErrType.
 Proof. split; reflexivity. Qed.
+
+(* ========================================================================================== *)
+(* The closed loop                                                                            *)
+(* ========================================================================================== *)
+
+(* the JSON-level pass is the atoms-level pass on the atoms read from the body *)
+Lemma cycle_is_cycle_atoms : forall fin ev body on de ini cons hs out,
+  cycle fin ev body on de ini cons hs = Ok out ->
+  exists dl bl, is_deletion_ongoing body = Ok dl /\ is_deletion_blocked fin body = Ok bl /\
+                out = cycle_on_atoms (Build_atoms (is_deleted_event ev) dl bl on de ini) cons hs.
+Proof.
+  intros fin ev body on de ini cons hs out H. unfold cycle in H.
+  destruct (is_deletion_ongoing body) as [dl| | |] eqn:DO.
+  2-4: (destruct (match hs with [] => Ok None | _ :: _ => bind (detect_body fin ev body on de ini) (fun c => Ok (Some c)) end);
+        cbn in H; discriminate H).
+  destruct (is_deletion_blocked fin body) as [bl| | |] eqn:BL.
+  2-4: (destruct (match hs with [] => Ok None | _ :: _ => bind (detect_body fin ev body on de ini) (fun c => Ok (Some c)) end);
+        cbn in H; discriminate H).
+  exists dl, bl. split; [reflexivity|]. split; [reflexivity|].
+  assert (DB : detect_body fin ev body on de ini = Ok (detect (Build_atoms (is_deleted_event ev) dl bl on de ini))).
+  { unfold detect_body, atoms_of_body. rewrite DO, BL. cbn. destruct ev; reflexivity. }
+  rewrite DB in H. unfold cycle_on_atoms, pass_cause. cbn [a_blocked a_deleting].
+  destruct hs as [|h0 hs']; cbn [bind] in H.
+  - cbn in H. cbn. destruct bl; cbn in *; injection H as <-; reflexivity.
+  - remember (h0 :: hs') as hs.
+    destruct (detect (Build_atoms (is_deleted_event ev) dl bl on de ini)) as [r i] eqn:DT.
+    destruct (prematch_any hs), (requires_finalizer hs), bl, dl, cons; cbn in H |- *; injection H as <-; reflexivity.
+Qed.
+
+Lemma pass_cause_some : forall a hs c add rem,
+  pass_cause a hs = (Some c, add, rem) -> c = detect a /\ prematch_any hs = true /\ add = false /\ rem = false.
+Proof.
+  intros a hs c add rem H. unfold pass_cause in H.
+  destruct hs as [|h0 hs'].
+  - cbn in H. destruct (a_blocked a); cbn in H; discriminate H.
+  - remember (h0 :: hs') as hs. destruct (prematch_any hs).
+    + destruct (requires_finalizer hs), (a_blocked a), (a_deleting a); cbn in H;
+        try discriminate H; injection H as H1 H2 H3; subst c add rem; auto.
+    + destruct (a_blocked a); cbn in H; discriminate H.
+Qed.
+
+(* pass_effects and cycle_on_atoms describe the same pass *)
+Lemma pass_effects_cycle : forall a cons done nodelays ran hs,
+  let fx := pass_effects a cons done nodelays ran hs in
+  let out := cycle_on_atoms a cons hs in
+  fx_cause fx = co_cause out /\ fx_block fx = co_block out /\
+  (forall h, In h (fx_ran fx) -> In h (co_invoked out)) /\
+  (co_allow out = true -> fx_allow fx = true).
+Proof.
+  intros a cons done nodelays ran hs. cbn zeta. unfold pass_effects, cycle_on_atoms.
+  destruct (pass_cause a hs) as [[[[r i]|] add] rem].
+  - destruct cons; [destruct (is_handler_reason r) eqn:HR|]; cbn.
+    + split; [reflexivity|]. split; [reflexivity|]. split.
+      * intros h H. apply filter_In in H. apply H.
+      * intro E; rewrite E; reflexivity.
+    + split; [reflexivity|]. split; [reflexivity|]. split.
+      * intros h [].
+      * intro E; rewrite E; reflexivity.
+    + split; [reflexivity|]. split; [reflexivity|]. split; [intros h [] | intro E; exact E].
+  - cbn. split; [reflexivity|]. split; [reflexivity|]. split; [intros h [] | intro E; rewrite E; reflexivity].
+Qed.
+
+Lemma pass_effects_ran : forall a cons done nodelays ran hs h,
+  In h (fx_ran (pass_effects a cons done nodelays ran hs)) ->
+  fx_cause (pass_effects a cons done nodelays ran hs) = Some (detect a) /\ cons = true /\ In h (invoked_of a hs).
+Proof.
+  intros a cons done nodelays ran hs h H. unfold pass_effects in *.
+  destruct (pass_cause a hs) as [[[[r i]|] add] rem] eqn:PC; [|cbn in H; contradiction].
+  apply pass_cause_some in PC. destruct PC as [E _].
+  destruct cons; [|cbn in H; contradiction].
+  destruct (is_handler_reason r); cbn in H |- *; [|contradiction].
+  apply filter_In in H. destruct H as [H _].
+  rewrite E. split; [reflexivity|]. split; [reflexivity|].
+  unfold invoked_of. rewrite <- E. cbn. exact H.
+Qed.
+
+(* an invocation is good when it is what the decision list and the selection give for the event's own
+   object and the memory of that moment *)
+Definition inv_good (iv : invocation) : Prop :=
+  let a := atoms_of_snap (iv_ev iv) (iv_snap iv) (iv_mem iv) in
+  iv_reason iv = fst (detect a) /\ iv_initial iv = snd (detect a) /\ exists hs, In (iv_h iv) (invoked_of a hs).
+
+Lemma step_log : forall w l w', step w l = Some w' ->
+  exists added, w_log w' = w_log w ++ added /\ Forall inv_good added.
+Proof.
+  intros w l w' H. destruct l.
+  1-4: (cbn in H; destruct (w_obj w); [|discriminate H]; injection H as <-; exists []; cbn; rewrite app_nil_r; split; auto).
+  - cbn in H. injection H as <-. exists []. cbn. rewrite app_nil_r. split; auto.
+  - unfold step in H. injection H as <-. cbn [w_log]. eexists. split; [reflexivity|].
+    apply Forall_forall. intros iv I. apply in_map_iff in I. destruct I as [h [E I]]. subst iv.
+    apply pass_effects_ran in I. destruct I as [C [_ IN]].
+    unfold inv_good. cbn [iv_reason iv_initial iv_ev iv_snap iv_mem iv_h]. rewrite C.
+    split; [destruct (detect _); reflexivity|]. split; [destruct (detect _); reflexivity|]. exists hs. exact IN.
+Qed.
+
+(* every invocation of every history — any interleaving of user edits, deletion requests, foreign
+   finalizers, stripped annotations, restarts and processed events with arbitrary (also stale) objects,
+   arbitrary registries, filter outcomes and handler outcomes — is good *)
+Lemma history_good : forall tr w0 w, Forall inv_good (w_log w0) -> run w0 tr = Some w -> Forall inv_good (w_log w).
+Proof.
+  induction tr as [|l tr IH]; intros w0 w G H; cbn in H.
+  - injection H as <-. exact G.
+  - destruct (step w0 l) as [w1|] eqn:S; [|discriminate H].
+    apply (IH w1 w); [|exact H].
+    destruct (step_log _ _ _ S) as [added [E GA]]. rewrite E. apply Forall_app. split; assumption.
+Qed.
+
+(* what a good invocation means in terms of the server-side object the event carried *)
+Lemma inv_good_spec : forall iv, inv_good iv ->
+  let s := iv_snap iv in
+  is_handler_reason (iv_reason iv) = true /\
+  guard (iv_reason iv) (atoms_of_snap (iv_ev iv) s (iv_mem iv)) = true /\
+  h_match (iv_h iv) = true /\
+  (h_reason (iv_h iv) = Some Create ->
+     iv_ev iv <> EvDeleted /\ ao_deleting s = false /\ ao_last s = None /\ iv_reason iv = Create /\ iv_initial iv = false) /\
+  (h_reason (iv_h iv) = Some Update ->
+     iv_ev iv <> EvDeleted /\ ao_deleting s = false /\ iv_reason iv = Update /\
+     exists l, ao_last s = Some l /\ l <> ao_ess s) /\
+  (h_reason (iv_h iv) = Some Delete ->
+     iv_ev iv <> EvDeleted /\ ao_deleting s = true /\ ao_own s = true /\ iv_reason iv = Delete) /\
+  (truthy (h_initial (iv_h iv)) = true ->
+     first_sight (iv_mem iv) = true /\ iv_initial iv = true /\ iv_reason iv <> Create /\
+     (ao_deleting s = true -> truthy (h_deleted (iv_h iv)) = true)) /\
+  (ao_deleting s = true -> iv_reason iv = Delete /\ ao_own s = true /\
+                           (h_reason (iv_h iv) = Some Delete \/ h_reason (iv_h iv) = None)).
+Proof.
+  intros iv [R [I [hs IN]]]. cbn zeta.
+  set (a := atoms_of_snap (iv_ev iv) (iv_snap iv) (iv_mem iv)) in *.
+  pose proof (invoked_sound _ _ _ _ _ IN) as [_ [HR [_ [M _]]]].
+  assert (NE : a_gone a = false -> iv_ev iv <> EvDeleted).
+  { intros G E. unfold a, atoms_of_snap in G. cbn in G. rewrite E in G. discriminate G. }
+  split; [rewrite R; exact HR|]. split; [rewrite R; apply detect_guard|]. split; [exact M|].
+  destruct (create_update_conditions _ _ _ IN) as [C U].
+  split; [|split; [|split; [|split]]].
+  - intro K. destruct (C K) as [G [D O]]. cbn in D, O.
+    assert (RC : fst (detect a) = Create) by (apply (precedence a); assumption).
+    split; [apply NE; exact G|]. split; [exact D|]. split.
+    + destruct (ao_last (iv_snap iv)); [discriminate O | reflexivity].
+    + split; [rewrite R; exact RC|]. rewrite I, initial_flag, RC. reflexivity.
+  - intro K. destruct (U K) as [G [D [O E]]]. cbn in D, O, E.
+    split; [apply NE; exact G|]. split; [exact D|]. split.
+    + rewrite R. apply (precedence a); assumption.
+    + destruct (ao_last (iv_snap iv)) as [l|]; [|discriminate O]. exists l. split; [reflexivity|].
+      cbn in E. intro X. subst l. rewrite Nat.eqb_refl in E. discriminate E.
+  - intro K. destruct (delete_only_when_blocked _ _ _ IN K) as [G [D B]]. cbn in D, B.
+    split; [apply NE; exact G|]. split; [exact D|]. split; [exact B|].
+    rewrite R. apply (precedence a); assumption.
+  - intro T. destruct (resume_only_first_sight _ _ _ IN T) as [A [B C']]. cbn in A, C'.
+    split; [exact A|]. split.
+    + rewrite I, initial_flag. destruct (reason_eqb (fst (detect a)) Create) eqn:E; [|exact A].
+      apply reason_eqb_eq in E. contradiction.
+    + split; [rewrite R; exact B | exact C'].
+  - intro D. destruct (when_deleting_partial a hs _ D IN) as [RD [B [_ [K _]]]].
+    split; [rewrite R; exact RD|]. split; [exact B | exact K].
+Qed.
+
+(* ---- what the operator must NOT change ---- *)
+Lemma proc_preserves : forall w ev snap hs c d n ran w',
+  step w (Proc ev snap hs c d n ran) = Some w' ->
+  match w_obj w with
+  | None => w_obj w' = None                                     (* no resurrection *)
+  | Some o =>
+      w_obj w' = None \/
+      exists o', w_obj w' = Some o' /\
+        ao_ess o' = ao_ess o /\ ao_deleting o' = ao_deleting o /\ ao_foreign o' = ao_foreign o /\
+        (ao_last o' = ao_last o \/ ao_last o' = Some (ao_ess snap)) /\      (* stored state: kept or overwritten, never cleared *)
+        (ao_last o <> None -> ao_last o' <> None)
+  end.
+Proof.
+  intros w ev snap hs c d n ran w' H. cbn in H. injection H as <-. cbn [w_obj].
+  destruct (w_obj w) as [o|]; [|destruct (is_deleted_event ev); reflexivity].
+  destruct (is_deleted_event ev).
+  - right. exists o. repeat split; auto.
+  - unfold settle. match goal with |- context [if ?b then None else Some ?x] => destruct b; [left; reflexivity|right; exists x] end.
+    split; [reflexivity|]. cbn. repeat split; auto.
+    + destruct (fx_store _); [right | left]; reflexivity.
+    + intro N. destruct (fx_store _); [discriminate | exact N].
+Qed.
+
+Definition is_drop (l : label) : bool := match l with EnvDropStored => true | _ => false end.
+
+Lemma step_keeps_stored : forall w l w' o, is_drop l = false ->
+  step w l = Some w' -> w_obj w = Some o -> ao_last o <> None ->
+  w_obj w' = None \/ exists o', w_obj w' = Some o' /\ ao_last o' <> None.
+Proof.
+  intros w l w' o ND S O L. destruct l; try discriminate ND.
+  - cbn in S. rewrite O in S. injection S as <-. right. eexists. split; [reflexivity|]. exact L.
+  - cbn in S. rewrite O in S. injection S as <-. cbn. unfold settle.
+    match goal with |- context [if ?b then None else Some ?x] => destruct b; [left; reflexivity|right; exists x] end.
+    split; [reflexivity | exact L].
+  - cbn in S. rewrite O in S. injection S as <-. cbn. unfold settle.
+    match goal with |- context [if ?b then None else Some ?x] => destruct b; [left; reflexivity|right; exists x] end.
+    split; [reflexivity | exact L].
+  - cbn in S. injection S as <-. right. exists o. split; [exact O | exact L].
+  - pose proof (proc_preserves _ _ _ _ _ _ _ _ _ S) as P. rewrite O in P.
+    destruct P as [P|[o' [P1 [_ [_ [_ [_ P2]]]]]]]; [left; exact P | right; exists o'; split; [exact P1 | exact (P2 L)]].
+Qed.
+
+(* once a last-handled state is stored it stays stored for the object's whole life, whatever users, other
+   controllers and the operator do — unless somebody strips it *)
+Lemma stored_stays : forall tr w w' o, forallb (fun l => negb (is_drop l)) tr = true ->
+  run w tr = Some w' -> w_obj w = Some o -> ao_last o <> None ->
+  w_obj w' = None \/ exists o', w_obj w' = Some o' /\ ao_last o' <> None.
+Proof.
+  induction tr as [|l tr IH]; intros w w' o F R O L; cbn in R.
+  - injection R as <-. right. exists o. split; assumption.
+  - cbn in F. apply andb_true_iff in F. destruct F as [F1 F2]. apply negb_true_iff in F1.
+    destruct (step w l) as [w1|] eqn:S; [|discriminate R].
+    destruct (step_keeps_stored _ _ _ _ F1 S O L) as [N|[o1 [O1 L1]]].
+    + left. clear IH S. revert w1 N R. induction tr as [|l' tr' IH']; intros w1 N R; cbn in R.
+      * injection R as <-. exact N.
+      * cbn in F2. apply andb_true_iff in F2. destruct F2 as [_ F2'].
+        destruct (step w1 l') as [w2|] eqn:S2; [|discriminate R].
+        apply (IH' F2' w2); [|exact R].
+        destruct l'; cbn in S2; try (rewrite N in S2; discriminate S2).
+        -- injection S2 as <-. exact N.
+        -- injection S2 as <-. cbn. rewrite N. destruct (is_deleted_event ev); reflexivity.
+    + exact (IH w1 w' o1 F2 R O1 L1).
+Qed.
+
+(* ---- the first-sight flag over a history ---- *)
+Definition keeps_memory (l : label) : bool :=
+  match l with Restart => false | Proc EvDeleted _ _ _ _ _ _ => false | _ => true end.
+
+Lemma step_handled_stays : forall w l w' m, keeps_memory l = true ->
+  step w l = Some w' -> w_mem w = Some m -> am_handled m = true ->
+  exists m', w_mem w' = Some m' /\ am_handled m' = true /\ am_listed m' = am_listed m.
+Proof.
+  intros w l w' m K S M Hd. destruct l; try discriminate K.
+  1-4: (cbn in S; destruct (w_obj w); [|discriminate S]; injection S as <-; exists m; auto).
+  cbn in S. injection S as <-. cbn [w_mem]. rewrite M. cbn [recall].
+  destruct ev; try discriminate K; cbn; eexists; (split; [reflexivity|]); cbn; rewrite Hd; auto.
+Qed.
+
+(* after a handling cycle has completed in this process (fully_handled_once), nothing is invoked with the
+   first-sight flag — hence no resume handler — until the process restarts or the object is gone *)
+Lemma no_first_sight_after_handled : forall tr w w' m, forallb keeps_memory tr = true ->
+  run w tr = Some w' -> w_mem w = Some m -> am_handled m = true ->
+  forall iv, In iv (skipn (List.length (w_log w)) (w_log w')) -> first_sight (iv_mem iv) = false.
+Proof.
+  induction tr as [|l tr IH]; intros w w' m F R M Hd iv I; cbn in R.
+  - injection R as <-. rewrite skipn_all in I. contradiction.
+  - cbn in F. apply andb_true_iff in F. destruct F as [F1 F2].
+    destruct (step w l) as [w1|] eqn:S; [|discriminate R].
+    destruct (step_handled_stays _ _ _ _ F1 S M Hd) as [m1 [M1 [H1 _]]].
+    destruct (step_log _ _ _ S) as [added [E _]].
+    assert (LE : exists rest, w_log w' = w_log w1 ++ rest).
+    { clear -R. revert w1 R. induction tr as [|l' tr' IH']; intros w1 R; cbn in R.
+      - injection R as <-. exists []. rewrite app_nil_r. reflexivity.
+      - destruct (step w1 l') as [w2|] eqn:S2; [|discriminate R].
+        destruct (IH' w2 R) as [rest E2]. destruct (step_log _ _ _ S2) as [ad [E1 _]].
+        exists (ad ++ rest). rewrite E2, E1, app_assoc. reflexivity. }
+    destruct LE as [rest LE]. rewrite LE, E, <- app_assoc in I.
+    rewrite skipn_app, skipn_all, Nat.sub_diag in I. cbn in I.
+    apply in_app_or in I. destruct I as [I|I].
+    + (* added by this very step: its memory is m *)
+      destruct l; cbn in S.
+      1-4: (destruct (w_obj w); [|discriminate S]; injection S as <-; cbn in E;
+            apply (f_equal (@List.length invocation)) in E; rewrite app_length in E;
+            destruct added; [contradiction | cbn in E; lia]).
+      * injection S as <-. cbn in E. apply (f_equal (@List.length invocation)) in E. rewrite app_length in E.
+        destruct added; [contradiction | cbn in E; lia].
+      * injection S as <-. cbn [w_log] in E. apply app_inv_head in E. subst added.
+        apply in_map_iff in I. destruct I as [h [<- _]]. cbn. rewrite M. cbn. unfold first_sight. rewrite Hd.
+        apply andb_false_r.
+    + apply (IH w1 w' m1 F2 R M1 H1). rewrite LE. rewrite skipn_app, skipn_all, Nat.sub_diag. cbn. exact I.
+Qed.
+
+(* ---- non-vacuity: a whole life of one object, replayed by vm_compute ---- *)
+Definition ex_obj0 : aobj := {| ao_ess := 1; ao_last := None; ao_deleting := false; ao_own := false; ao_foreign := false |}.
+Definition ex_world0 : world := {| w_obj := Some ex_obj0; w_mem := None; w_log := [] |}.
+Definition ex_cur (w : option world) : aobj := match w with Some {| w_obj := Some o |} => o | _ => ex_obj0 end.
+(* each Proc processes the current object (fresh events); handlers always succeed *)
+Fixpoint ex_drive (w : world) (script : list (option label * evtype)) : option world :=
+  match script with
+  | [] => Some w
+  | (Some l, _) :: rest => match step w l with Some w' => ex_drive w' rest | None => None end
+  | (None, ev) :: rest =>
+      match w_obj w with
+      | Some o => match step w (Proc ev o ex_handlers true true true [0;1;2;3;4;5]%nat) with
+                  | Some w' => ex_drive w' rest | None => None end
+      | None => None
+      end
+  end.
+Definition ex_script : list (option label * evtype) :=
+  [(None, EvNone);              (* listed, never handled: the finalizer is added first, nothing runs *)
+   (None, EvModified);          (* creation: create + field *)
+   (None, EvModified);          (* echo of the own patch: no-op *)
+   (Some (EnvEdit 2), EvNone); (None, EvModified);      (* update: update + field *)
+   (Some Restart, EvNone); (None, EvNone);              (* relisted, unchanged: resume x2 (+ the always-matching field oracle) *)
+   (None, EvModified);                                  (* nothing *)
+   (Some EnvDelete, EvNone); (None, EvModified)].       (* deletion: delete (+ field oracle); no resume(deleted=True): not first sight any more; released *)
+
+Example ex_life :
+  match ex_drive ex_world0 ex_script with
+  | Some w => w_obj w = None /\
+              map (fun iv => (h_key (iv_h iv), iv_reason iv)) (w_log w) =
+              [(0, Create); (4, Create); (1, Update); (4, Update); (3, Resume); (4, Resume); (5, Resume); (2, Delete); (4, Delete)]%nat
+  | None => False
+  end.
+Proof. vm_compute. split; reflexivity. Qed.
+
+(* the history theorem in one statement: start anywhere with an empty log *)
+Lemma history_exclusive : forall tr o m w iv,
+  run {| w_obj := o; w_mem := m; w_log := [] |} tr = Some w -> In iv (w_log w) ->
+  let s := iv_snap iv in
+  is_handler_reason (iv_reason iv) = true /\
+  guard (iv_reason iv) (atoms_of_snap (iv_ev iv) s (iv_mem iv)) = true /\
+  h_match (iv_h iv) = true /\
+  (h_reason (iv_h iv) = Some Create ->
+     iv_ev iv <> EvDeleted /\ ao_deleting s = false /\ ao_last s = None /\ iv_reason iv = Create /\ iv_initial iv = false) /\
+  (h_reason (iv_h iv) = Some Update ->
+     iv_ev iv <> EvDeleted /\ ao_deleting s = false /\ iv_reason iv = Update /\
+     exists l, ao_last s = Some l /\ l <> ao_ess s) /\
+  (h_reason (iv_h iv) = Some Delete ->
+     iv_ev iv <> EvDeleted /\ ao_deleting s = true /\ ao_own s = true /\ iv_reason iv = Delete) /\
+  (truthy (h_initial (iv_h iv)) = true ->
+     first_sight (iv_mem iv) = true /\ iv_initial iv = true /\ iv_reason iv <> Create /\
+     (ao_deleting s = true -> truthy (h_deleted (iv_h iv)) = true)) /\
+  (ao_deleting s = true -> iv_reason iv = Delete /\ ao_own s = true /\
+                           (h_reason (iv_h iv) = Some Delete \/ h_reason (iv_h iv) = None)).
+Proof.
+  intros tr o m w iv R I. apply inv_good_spec.
+  assert (G : Forall inv_good (w_log w)) by (eapply history_good; [|exact R]; constructor).
+  rewrite Forall_forall in G. apply G. exact I.
+Qed.
+
+Lemma first_sight_flag : forall ev s m mem,
+  a_initial (atoms_of_snap ev s m) = (am_listed m && negb (am_handled m)) /\
+  (recall None ev = {| am_listed := is_listing ev; am_handled := false |}) /\ recall (Some mem) ev = mem.
+Proof. intros; repeat split. Qed.
+
+Lemma reads_only_core : forall fin ev body on de ini cons hs,
+  detect_body fin ev (core_body body) on de ini = detect_body fin ev body on de ini /\
+  cycle fin ev (core_body body) on de ini cons hs = cycle fin ev body on de ini cons hs.
+Proof. intros; split; [apply core_detect_body | apply core_cycle]. Qed.
+
+(* non-vacuity of the two history invariants: a handled, listed object is edited and the update is processed —
+   the stored state is still there (overwritten), one update invocation is logged, without the first-sight flag *)
+Definition ex_obj_handled : aobj := {| ao_ess := 1; ao_last := Some 1; ao_deleting := false; ao_own := true; ao_foreign := false |}.
+Definition ex_world_handled : world :=
+  {| w_obj := Some ex_obj_handled; w_mem := Some {| am_listed := true; am_handled := true |}; w_log := [] |}.
+Definition ex_trace_update : list label :=
+  [EnvEdit 2;
+   Proc EvModified {| ao_ess := 2; ao_last := Some 1; ao_deleting := false; ao_own := true; ao_foreign := false |}
+        ex_handlers true true true [0;1;2;3;4;5]%nat].
+
+Example ex_history_invariants_nonvacuous :
+  forallb (fun l => negb (is_drop l)) ex_trace_update = true /\ forallb keeps_memory ex_trace_update = true /\
+  match run ex_world_handled ex_trace_update with
+  | Some w => (exists o', w_obj w = Some o' /\ ao_last o' = Some 2%nat) /\
+              map (fun iv => (h_key (iv_h iv), iv_reason iv, first_sight (iv_mem iv))) (w_log w)
+              = [(1, Update, false); (4, Update, false)]%nat
+  | None => False
+  end.
+Proof. vm_compute. repeat split. eexists. split; reflexivity. Qed.
